@@ -57,7 +57,7 @@ let () =
         dontcare_of "tkhd" v (LTkhd (n v, z, z, z, z, z, z, z, z, z, z));
         dontcare_of "sidx" v (LSidx (n v, z, z, z, z, z, []));
         dontcare_of "mdhd" v (LMdhd (n v, z, z, z, z, z, z));
-        dontcare_of "hdlr" v (LHdlr (n v, z, z, [z; z; z; z], [], false))) [0; 1]
+        dontcare_of "hdlr" v (LHdlr (n v, z, z, [z; z; z; z], [], false))) [0; 1; 2; 3]
   end else
   if Array.length Sys.argv > 1 && Sys.argv.(1) = "names" then begin
     L.iter (fun (n, _) -> Printf.printf "leaf %s\n" (hex_of_bytes n)) leaf_table;
